@@ -4,7 +4,7 @@ import itertools
 import numpy as np
 import pandas as pd
 
-from .. import common as C, gen, drv
+from .. import common as C, gen, drv, translators
 from ..common import tok_rat, tok_f, tok_list
 from ..runner import Check
 
@@ -125,7 +125,7 @@ def converter_cases(r, quick, only=None):
 
 
 def run():
-    chk = Check("C20")
+    chk = Check("C20", props_modules=["GFO.Props.C20", "GFO.Gen.ConvGenCheck"], gen_steps=(translators.gen_converter,))
     chk.build_and_audit()
     r = C.rng("C20")
     quick = C.tier() != "thorough"
